@@ -198,6 +198,14 @@ def extras(rng):
     out.append(['tags', V('strs', rng.sample(['e', 'h', 'g'], rng.randint(0, 2)))])
   if rng.random() < 0.3:
     out.append(['profile', V('vec', fsl([C.dy(rng, -2, 2) for _ in range(rng.randint(1, 3))]))])
+  # values and names a filtering from_dict would lose: None-valued, underscore-named and boolean fields
+  if rng.random() < 0.3:
+    out.append(['remark', V('none')])
+  if rng.random() < 0.3:
+    out.append(['_tag', V('str', rng.choice(['t1', 'Zone_B'])) if rng.random() < 0.7 else V('none')])
+  if rng.random() < 0.3:
+    out.append(['enabled', V('bool', rng.random() < 0.5)])
+  rng.shuffle(out)
   return out
 
 
@@ -256,7 +264,7 @@ def decimalise(rng, o):
     elif k == 'cbounds' and t == 'cbs':
       v['v'] = [[fx(C.pf(c[0]) - rng.choice(SMALL)), fx(C.pf(c[1]) + rng.choice(SMALL)), c[2], c[3]] for c in v['v']]
     elif k in ('weight', 'w', 'sign', 't_init', 't_optimal') and t == 'num':
-      v['v'] = fx(rng.choice([1, -1] if k in ('weight', 'sign') else [1])*rng.choice(DECIMALS) + (15 if k.startswith('t_') else 0))
+      v['v'] = fx(rng.choice([1, -1] if k in ('weight', 'sign') else [1, 1, -1] if k == 'w' else [1])*rng.choice(DECIMALS) + (15 if k.startswith('t_') else 0))
     elif k == 'profile' and t == 'vec':
       v['v'] = [fx(rng.choice([1, -1])*rng.choice(DECIMALS)*rng.random()) for _ in range(rng.choice([1, 3, 50, 200]))]
     elif k == 't_external' and t == 'vec':
@@ -295,7 +303,7 @@ def decimalise(rng, o):
       elif k == 't_range': v['v'] = fx(1 + rng.choice(SMALL))
       elif k == 'c': v['v'] = [fx(rng.choice(DECIMALS)) for _ in v['v']] if t == 'vec' else fx(rng.choice(DECIMALS))
     elif cls == 'WindowDevice' and k == 'c' and t == 'num':
-      v['v'] = fx(rng.choice(DECIMALS))
+      v['v'] = fx(rng.choice([1, 1, -1])*rng.choice(DECIMALS))
     out.append([k, v])
   o.pop('_ph', None); o.pop('_c1', None)
   o['kw'] = out
@@ -329,8 +337,8 @@ def edgeify(rng, o):
     elif cls == 'SDevice' and k == 'rate_clip' and t == 'clip': v['v'] = rng.choice([['1', None], [None, '1'], [None, None], ['1', '1']])
     elif cls == 'TDevice' and k in ('sustainment', 't_range', 'c') and t in ('num', 'vec'):
       v['v'] = same(rng.choice(['0', '1']) if k == 'sustainment' else '0')
-    elif cls == 'WindowDevice' and k == 'w': v['v'] = rng.choice(['0', str(n), str(2*n), fx(n + 0.5), fx(1.4*n)])
-    elif cls == 'WindowDevice' and k == 'c': v['v'] = rng.choice(['0', '-1', fx(-0.1)])
+    elif cls == 'WindowDevice' and k == 'w': v['v'] = rng.choice(['0', str(n), str(2*n), fx(n + 0.5), fx(1.4*n), '-1', fx(-n/2), fx(-0.1)])
+    elif cls == 'WindowDevice' and k == 'c': v['v'] = rng.choice(['0', '-1', fx(-0.1), fx(-2.5)])
     elif k == 'cbounds' and t == 'none' and rng.random() < 0.6: v = V('cbs', [])          # an EMPTY list instead of None
     elif k in ('tags', 'labels') and t == 'strs': v['v'] = []
     elif k == 'profile' and t == 'vec': v['v'] = []
@@ -457,9 +465,9 @@ def gen_window(rng, tier, n=None):
     cbs, form = gen.gen_cbounds(rng, n, lb, hb)
     d['cbs'] = [[C.fs(c[0]), C.fs(c[1]), c[2], c[3]] for c in cbs]
     d['_py']['cform'] = form if len(cbs) == 1 and cbs[0][2] == 0 and cbs[0][3] == n else '4tuples'
-  d['prm']['w'] = C.fs(C.dy(rng, 0, 2*n))      # the window may be wider than the horizon
+  d['prm']['w'] = C.fs(C.dy(rng, -n, 2*n))      # the window may be wider than the horizon, or negative (accepted: every slot is then outside it)
   if rng.random() < 0.85:
-    d['prm']['c'] = C.fs(C.dy(rng, 0, 3))
+    d['prm']['c'] = C.fs(C.dy(rng, -3, 3))        # the penalty scale may be negative (accepted)
   return d
 
 
@@ -564,8 +572,14 @@ def set_case(rng, tier, cls):
   raise AssertionError('no tree with a multi-flow adaptor generated')
 
 
+CHEAP = ['Device', 'PVDevice', 'CDevice', 'CDevice2', 'IDevice', 'IDevice2', 'GDevice', 'WindowDevice']   # no O(n^2) constraints / recurrences
+
+
 def leaf_case(rng, tier, cls):
-  d = gen_leaf_desc(rng, tier, cls, n=rng.choice([24, 48, 96]) if rng.random() < 0.08 else None)
+  n = None
+  if rng.random() < 0.1:      # long horizons now and then; very long ones (beyond any "usual" planning window) for the cheap classes
+    n = rng.choice([24, 48, 96] + ([192, 288] if cls in CHEAP else []))
+  d = gen_leaf_desc(rng, tier, cls, n=n)
   return {'kind': 'leaf', 'obj': leaf_obj(rng, d), 'probes': leaf_probes(rng, d), 'n': d['n']}
 
 
@@ -738,6 +752,7 @@ class C16(Prop):
   table_obligations = [
     'DK.C16.extraction_clean', 'DK.C16.shipped_present', 'DK.C16.mro_resolved', 'DK.C16.sig_agrees_ast', 'DK.C16.dump_defined',
     'DK.C16.dumped_keys_accepted', 'DK.C16.required_args_dumped', 'DK.C16.dump_covers_ctor', 'DK.C16.from_dict_binds',
+    'DK.C16.from_dict_is_ctor',
     'DK.C16.bridge_keys', 'DK.C16.bridge_varkw', 'DK.C16.bridge_total',
   ]
   theorems = theorems + table_obligations
@@ -808,7 +823,15 @@ class C16(Prop):
     a0 = {'kind': 'leaf', 'n': 6, 'obj': {'cls': 'ADevice', 'kw': [['id', V('str', 'a')], ['length', V('nat', 6)], ['bounds', V('pairNum', ['0', '2'])],
           ['cbounds', V('cbs', [['1', '4', 0, 3], ['1', '5', 3, 6]])], ['f', V('fn', {'k': 'null'})], ['constraints', V('cons', [])]]},
           'probes': [{'s': ['1', '1/2', '1', '1', '1', '1'], 'p': '1/4'}]}
-    return [w, t, a, b, w2, a0]
+    # a NEGATIVE window width and a NEGATIVE penalty scale (both accepted; the penalty is built from the raw values);
+    # a horizon far beyond the usual planning window; None-valued / underscore-named / boolean extra fields
+    w3 = {'kind': 'leaf', 'n': 4, 'obj': {'cls': 'WindowDevice', 'kw': [['id', V('str', 'wneg')], ['length', V('nat', 4)], ['bounds', V('pairNum', ['0', '2'])],
+          ['w', V('num', '-2')], ['c', V('num', '-3/2')]]},
+          'probes': [{'s': ['2', '1/2', '0', '1'], 'p': '0'}, {'s': ['1', '0', '0', '2'], 'p': '1/4'}]}
+    long = {'kind': 'leaf', 'n': 192, 'obj': {'cls': 'Device', 'kw': [['id', V('str', 'long')], ['length', V('nat', 192)], ['bounds', V('pairNum', ['0', '1'])],
+            ['remark', V('none')], ['_tag', V('str', 'Zone_B')], ['enabled', V('bool', False)], ['note', V('str', 'x')]]},
+            'probes': [{'s': ['1/2']*192, 'p': '1/4'}]}
+    return [w, t, a, b, w2, a0, w3, long]
 
   def nontrivial(self, case):
     o = case['obj']
